@@ -215,9 +215,25 @@ def _expand(prg, caller, stmt: ast.stmt, call: ast.Call, target, how: str, count
     counter[0] += 1
     k = counter[0]
     rename: dict[str, str] = {}
+    # a local that the helper returns into the caller's variable of the same name (`a, b = self._split(..)` with a final
+    # `return a, b` in the helper), the caller binding that name nowhere else: the same thing under the same name
+    same_slot: set[str] = set()
+    if how == "whole" and isinstance(stmt, ast.Assign) and len(stmt.targets) == 1 and stmt.value is call:
+        rets_ = [n for n in ast.walk(fnode) if isinstance(n, ast.Return)]
+        tnames = [e.id if isinstance(e, ast.Name) else None for e in (stmt.targets[0].elts if isinstance(stmt.targets[0], ast.Tuple) else [stmt.targets[0]])]
+        if len(rets_) == 1 and rets_[0] is fnode.body[-1] and rets_[0].value is not None:
+            rnames = [e.id if isinstance(e, ast.Name) else None for e in (rets_[0].value.elts if isinstance(rets_[0].value, ast.Tuple) else [rets_[0].value])]
+            if len(rnames) == len(tnames):
+                for tn, rn in zip(tnames, rnames):
+                    if tn is not None and tn == rn and rn not in _params(fnode):
+                        stores = [n for n in ast.walk(caller.node) if isinstance(n, ast.Name) and n.id == tn and isinstance(n.ctx, ast.Store)]
+                        if len(stores) == 1:
+                            same_slot.add(tn)
     for name in sorted(_locals(fnode) | set(_params(fnode))):
         if name in bind and isinstance(bind[name], ast.Name) and bind[name].id == name:  # type: ignore[union-attr]
             continue  # the same thing under the same name
+        if name in same_slot:
+            continue
         if name in caller_names:
             rename[name] = f"{name}__i{k}"
     body = [copy.deepcopy(s) for s in fnode.body if not (isinstance(s, ast.Expr) and isinstance(s.value, ast.Constant) and isinstance(s.value.value, str))]
